@@ -60,6 +60,7 @@ Definition serve_ro (o : owner) (c : cellid) : Prop :=
   | CMethodNames => True
   | CResErr _ => True
   | CResVal _ => True
+  | CReqFields => True
   | _ => False
   end.
 
@@ -111,9 +112,9 @@ Proof.
     repeat (apply Forall_cons; [first [apply sa_priv | apply sa_ro; cbn; auto]|]). apply Forall_nil.
 Qed.
 
-Lemma sa_event o r ev : Forall (serve_acc o r) (event_fp o r ev).
+Lemma sa_event o r ev : Forall (serve_acc o r) (event_fp current o r ev).
 Proof.
-  destruct ev; cbn [event_fp];
+  destruct ev; cbn [event_fp required_fp lazy_required_index current app];
     repeat (apply Forall_cons; [first [apply sa_priv | apply sa_ro; cbn; auto]|]); apply Forall_nil.
 Qed.
 
@@ -226,7 +227,7 @@ Qed.
 
 Definition shared_ro (c : cellid) : Prop :=
   match c with
-  | CNode (Copy _) _ | CRoot (Copy _) | CMethodNames | CResErr _ | CResVal _ | CClient _ | CHostUrl _ => True
+  | CNode (Copy _) _ | CRoot (Copy _) | CMethodNames | CResErr _ | CResVal _ | CClient _ | CHostUrl _ | CReqFields => True
   | _ => False
   end.
 
@@ -323,7 +324,7 @@ Proof.
     apply Forall_app. split.
     + destruct res as [|w k]; [apply Forall_cons; [apply d_ro; exact I|apply Forall_nil]|].
       apply disc_resolve. exact Hok.
-    + cbn [pooled_tunnel current app].
+    + cbn [pooled_tunnel required_fp lazy_required_index current app].
       repeat (apply Forall_cons; [first [apply d_private | apply d_ro; exact I | apply d_atomic; exact I]|]).
       apply Forall_nil.
   - apply disc_resolve. exact Hok.
@@ -691,13 +692,17 @@ Definition get_a1 : request :=
   {| r_verb := VGet; r_header := []; r_path := [x2f; x61; x2f; x31]; r_query := []; r_body := false |}.
 
 Definition inplace : variant :=
-  {| err_inplace := true; rng_unlocked := false; shallow_handler := false; state_in_root := false; pooled_tunnel := false |}.
+  {| err_inplace := true; rng_unlocked := false; shallow_handler := false; state_in_root := false; pooled_tunnel := false;
+     lazy_required_index := false |}.
 Definition unlocked : variant :=
-  {| err_inplace := false; rng_unlocked := true; shallow_handler := false; state_in_root := false; pooled_tunnel := false |}.
+  {| err_inplace := false; rng_unlocked := true; shallow_handler := false; state_in_root := false; pooled_tunnel := false;
+     lazy_required_index := false |}.
 Definition shallow : variant :=
-  {| err_inplace := false; rng_unlocked := false; shallow_handler := true; state_in_root := false; pooled_tunnel := false |}.
+  {| err_inplace := false; rng_unlocked := false; shallow_handler := true; state_in_root := false; pooled_tunnel := false;
+     lazy_required_index := false |}.
 Definition rootstate : variant :=
-  {| err_inplace := false; rng_unlocked := false; shallow_handler := false; state_in_root := true; pooled_tunnel := false |}.
+  {| err_inplace := false; rng_unlocked := false; shallow_handler := false; state_in_root := true; pooled_tunnel := false;
+     lazy_required_index := false |}.
 
 (* D24 as pinned: two requests whose resource method returns the same error object with a nil Message *)
 Theorem shared_error_inplace_would_conflict :
@@ -756,7 +761,8 @@ Proof.
 Qed.
 
 Definition pooled : variant :=
-  {| err_inplace := false; rng_unlocked := false; shallow_handler := false; state_in_root := false; pooled_tunnel := true |}.
+  {| err_inplace := false; rng_unlocked := false; shallow_handler := false; state_in_root := false; pooled_tunnel := true;
+     lazy_required_index := false |}.
 
 (* EncodeTunnelledQuery assembling request bodies in a recycled package-level buffer (sync.Pool: Get / Put are atomic, the
    BYTES are plain): any two client calls conflict - one is still reading its body while the other writes its own *)
@@ -765,7 +771,7 @@ Theorem pooled_tunnel_buffer_would_conflict : forall c1 c2 r1 r2 res1 res2,
 Proof.
   intros c1 c2 r1 r2 res1 res2. exists (rd CTunnelBuf), (wr CTunnelBuf).
   assert (Hin : forall c r res x, x = rd CTunnelBuf \/ x = wr CTunnelBuf -> In x (call_fp pooled c r res)).
-  { intros c r res x Hx. unfold call_fp. cbn [pooled_tunnel pooled].
+  { intros c r res x Hx. unfold call_fp. cbn [pooled_tunnel lazy_required_index required_fp pooled].
     apply in_or_app. right. apply in_or_app. right. cbn [app In]. destruct Hx as [-> | ->]; tauto. }
   split; [apply Hin; left; reflexivity|]. split; [apply Hin; right; reflexivity|].
   split; [reflexivity|]. split; [right; reflexivity|reflexivity].
@@ -779,6 +785,54 @@ Proof.
   destruct D; cbn [a_cell] in *; try discriminate Hc.
   - rewrite Hc in H. destruct H.
   - rewrite Hc in H. destruct H.
+Qed.
+
+Definition lazyidx : variant :=
+  {| err_inplace := false; rng_unlocked := false; shallow_handler := false; state_in_root := false; pooled_tunnel := false;
+     lazy_required_index := true |}.
+
+(* A RequiredFields object that builds its field index in place when a record is first read with it: any two client calls
+   conflict (each decodes a response record: one fills the index while the other tests or consults it) ... *)
+Theorem lazy_required_index_would_conflict : forall c1 c2 r1 r2 res1 res2,
+  exists a b, In a (call_fp lazyidx c1 r1 res1) /\ In b (call_fp lazyidx c2 r2 res2) /\ conflict a b.
+Proof.
+  intros c1 c2 r1 r2 res1 res2. exists (rd CReqFields), (wr CReqFields).
+  assert (Hin : forall c r res x, x = rd CReqFields \/ x = wr CReqFields -> In x (call_fp lazyidx c r res)).
+  { intros c r res x Hx. unfold call_fp. cbn [pooled_tunnel lazy_required_index required_fp lazyidx].
+    apply in_or_app. right. apply in_or_app. right. cbn [app In]. destruct Hx as [-> | ->]; tauto. }
+  split; [apply Hin; left; reflexivity|]. split; [apply Hin; right; reflexivity|].
+  split; [reflexivity|]. split; [right; reflexivity|reflexivity].
+Qed.
+
+(* ... and so do any two requests whose resource method is reached (the stub decodes the request's records) *)
+Theorem lazy_required_index_requests_would_conflict :
+  exists a b,
+    In a (serve_fp lazyidx 0 1 one_root [] (BOk None) get_a1) /\
+    In b (serve_fp lazyidx 0 2 one_root [] (BOk None) get_a1) /\ conflict a b.
+Proof.
+  exists (wr CReqFields), (wr CReqFields).
+  split; [vm_compute; tauto|]. split; [vm_compute; tauto|].
+  split; [reflexivity|]. split; [left; reflexivity|reflexivity].
+Qed.
+
+(* On the current code every operation only READS RequiredFields objects (plain reads of an object that is complete since
+   package initialisation) - and requests and calls really do read them (non-vacuity) *)
+Theorem required_fields_read_only : forall r o a,
+  In a (footprint current r o) -> a_cell a = CReqFields -> a_write a = false /\ a_sync a = Plain.
+Proof.
+  intros r o a Hin Hc.
+  destruct (footprint_disc_ex r o a Hin) as [[n [u D]] | [_ [H | [p H]]]]; [|congruence|congruence].
+  destruct D; cbn [a_cell a_write a_sync] in *; try discriminate Hc; try (split; reflexivity).
+  rewrite Hc in H. destruct H.
+Qed.
+
+Theorem required_fields_are_read :
+  In (rd CReqFields) (serve_fp current 0 1 one_root [] (BOk None) get_a1) /\
+  forall c r res, In (rd CReqFields) (call_fp current c r res).
+Proof.
+  split; [vm_compute; tauto|].
+  intros c r res. unfold call_fp. cbn [pooled_tunnel lazy_required_index required_fp current].
+  apply in_or_app. right. apply in_or_app. right. cbn [app In]. tauto.
 Qed.
 
 (* the premise "the real accesses are among the modelled ones" is what the race-detector runs test; under it the
